@@ -40,3 +40,11 @@ def ask(drv, req, max_rounds=200):
 
 def model_validate0(drv, case):
     return ask(drv, base_request(case, 'validate0'))
+
+
+def model_normalize(drv, case):
+    return ask(drv, base_request(case, 'normalize'))
+
+
+def model_validate(drv, case):
+    return ask(drv, base_request(case, 'validate'))
